@@ -27,7 +27,8 @@ import (
 	"veriftools/build"
 )
 
-const verifDir = "/verif"
+// verifDir is the /verif tree this driver runs in (its working directory).
+var verifDir = "/verif"
 
 type tierCfg struct {
 	BudgetS int
@@ -39,6 +40,12 @@ func die(code int, format string, args ...any) {
 }
 
 func main() {
+	if wd, err := os.Getwd(); err == nil {
+		if _, err := os.Stat(filepath.Join(wd, "sim", "go.mod")); err == nil {
+			verifDir = wd
+			build.VerifDir = wd
+		}
+	}
 	if len(os.Args) < 2 {
 		die(2, "usage: simcheck run|replay|build ...")
 	}
